@@ -1195,7 +1195,8 @@ def c12(tier, replay=None):
     from .absmodel import norm_mutation, short
     report = Report('C12', tier)
     rng = random.Random(seed() * 4241 + 5)
-    space = [(2, 1, 1), (2, 3, 2)] if tier == 'quick' else [(2, 1, 1), (3, 3, 2), (2, 2, 3), (2, 2, 1)]
+    space = [(2, 1, 1), (2, 3, 2), (2, 12, 13)] if tier == 'quick' else \
+        [(2, 1, 1), (3, 3, 2), (2, 2, 3), (2, 2, 1), (2, 12, 13), (2, 9, 10), (2, 7, 7)]
     limit = 180 if tier == 'quick' else 3000
     recs = []
     for maxlen, start, alpha in space:
